@@ -501,9 +501,9 @@ Section Monitors2.
                       match num_header (bs "Age") (p_hdr r) with
                       | None => VBad 2
                       | Some a =>
-                          let lo := sv_age s (x_t0 o) / second in
-                          let hi := sv_age s (x_t1 o) / second in
-                          if (lo - 1 <=? a) && (a <=? hi + 1) then VOk else VBad 3
+                          (* the current age when the response is handed back *)
+                          let cur := sv_age s (x_t1 o) / second in
+                          if (cur - 1 <=? a) && (a <=? cur + 1) then VOk else VBad 3
                       end
                 end
             | Validated _ =>
@@ -560,6 +560,9 @@ Section Monitors2.
     | Done (OResp _) => if x_bg_ok o then VOk else VBad 3
     end.
 
+  Definition some_ref_ids (l : list (option ref)) : list bytes :=
+    flat_map (fun x => match x with Some r => [r_id r] | None => [] end) l.
+
   (* C09 — a fresh, matching, live entry must be served from the store *)
   Fixpoint latest_store (rev_past : hist) : option (request * bytes * stored_entry) :=
     match rev_past with
@@ -600,22 +603,18 @@ Section Monitors2.
                 (* the cache selects, among the matching stored responses, the one with the most recent
                    Date (RFC 9111 §4.1); the promise is about that one *)
                 let selected :=
-                  match find (fun ev => match ev with EvGetRefs _ _ => true | _ => false end) (x_events o) with
-                  | Some (EvGetRefs u _) =>
-                      match fold_left (fun a ev => match ev with
-                                                   | EvSetRefs u' l => if beq u u' then Some l else a
-                                                   | EvDel u' _ => if beq u u' then None else a
-                                                   | _ => a end) prefix None with
-                      | Some l =>
-                          match find_match (strip_refs l) (q_hdr q) 0 None with
-                          | Some (Some i) => match nth_error (strip_refs l) (Z.to_nat i) with
-                                             | Some r => beq (r_id r) k
-                                             | None => false end
-                          | _ => false
-                          end
-                      | None => false
+                  (* the index that lists this entry, as last written *)
+                  match fold_left (fun a ev => match ev with
+                                               | EvSetRefs _ l => if in_names k (some_ref_ids l) then Some l else a
+                                               | _ => a end) prefix None with
+                  | Some l =>
+                      match find_match (strip_refs l) (q_hdr q) 0 None with
+                      | Some (Some i) => match nth_error (strip_refs l) (Z.to_nat i) with
+                                         | Some r => beq (r_id r) k
+                                         | None => false end
+                      | _ => false
                       end
-                  | _ => false
+                  | None => false
                   end in
                 if negb (plain_get q0) || negb selected then VNa
                 else match variant_match (e_hdr e) q0 q with
